@@ -73,11 +73,12 @@ Definition dlv_of (evs:list event) : list msg := flat_map (fun e => match e with
 (* deliveries that did not come through ISO-TP *)
 Definition fp_dlv (evs:list event) : list msg := filter (fun m => negb (m_tp m)) (dlv_of evs).
 
-(* what is assumed of the group-function reaction (the parameter of the node model): it leaves the reassembly table, the driver queue and
-   the PGN configuration alone and hands nothing to the application itself *)
+(* what is assumed of the group-function reaction (the parameter of the node model): it leaves the reassembly table, the driver queue, the
+   PGN configuration, the known-message switch and the clock alone and hands nothing to the application itself *)
 Definition gf_ok (gf:rnode -> slot -> rnode * list event) : Prop :=
   forall r s, r_slots (fst (gf r s)) = r_slots r /\ r_q (fst (gf r s)) = r_q r /\ n_pgn (rn (fst (gf r s))) = n_pgn (rn r) /\
-              c_only_known (r_cfg (fst (gf r s))) = c_only_known (r_cfg r) /\ dlv_of (snd (gf r s)) = [].
+              c_only_known (r_cfg (fst (gf r s))) = c_only_known (r_cfg r) /\ n_now (rn (fst (gf r s))) = n_now (rn r) /\
+              dlv_of (snd (gf r s)) = [].
 (* start state: nothing queued, no fast-packet reassembly in progress (every slot is clear or belongs to ISO-TP) *)
 Definition rx_clean (r:rnode) : Prop := r_q r = [] /\ Forall (fun s => s_pgn s = 0 \/ s_tp s = true) (r_slots r).
 
